@@ -126,6 +126,21 @@ type runner struct {
 	itemViols     map[[2]int]int
 }
 
+func harnessPkgs(c *Check) []string {
+	var out []string
+	if c == nil {
+		return out
+	}
+	seen := map[string]bool{}
+	for _, h := range c.Harnesses {
+		if !seen[h.Pkg] {
+			seen[h.Pkg] = true
+			out = append(out, h.Pkg)
+		}
+	}
+	return out
+}
+
 func verifDir() string { return envOr("QSYM_VERIF", "/verif") }
 
 func runCheck(args []string) int {
@@ -148,7 +163,7 @@ func runCheck(args []string) int {
 	seed, _ := strconv.ParseInt(envOr("VERIF_SEED", "1"), 10, 64)
 	t0 := time.Now()
 	repo := envOr("QSYM_REPO", "/repo")
-	P, err := LoadProgram(repo, filepath.Join(verifDir(), "harness"))
+	P, err := LoadProgram(repo, filepath.Join(verifDir(), "harness"), harnessPkgs(chk)...)
 	if err != nil {
 		fmt.Fprintln(os.Stderr, "load:", err)
 		return 2
@@ -886,7 +901,7 @@ func replayCmd(id, file string) int {
 		fmt.Fprintln(os.Stderr, err)
 		return 2
 	}
-	P, err := LoadProgram(envOr("QSYM_REPO", "/repo"), filepath.Join(verifDir(), "harness"))
+	P, err := LoadProgram(envOr("QSYM_REPO", "/repo"), filepath.Join(verifDir(), "harness"), harnessPkgs(findCheck(id))...)
 	if err != nil {
 		fmt.Fprintln(os.Stderr, "load:", err)
 		return 2
